@@ -267,7 +267,8 @@ def run(ctx):
                 if r.startswith("DIFF"):
                     key = "msg:%s:%s" % (ty, path_class(kv.get("path", r[5:])))
                 else:
-                    key = "msg:%s:%s" % (ty, "-".join(r.split()[:2]).lower())
+                    # framing / decoding failure: the root cause is not the message type
+                    key = "msg:%s:%s" % ("-".join(r.split()[:2]).lower(), kv.get("err", "")[:60])
                 ctx.violation(key, "%s -> %s" % (op, r[:300]), {"op": op, "impl": r})
 
     missing = [t[2] for t in types if t[2] not in types_seen]
